@@ -312,12 +312,21 @@ def post_ring(log_path, case):
     return None
 
 
+def gen_cap(rng, tier):
+    """every capacity exponent the constructor's assert admits (1 <= k < 32), once"""
+    return [{"args": [k], "env": {"VR_SEED": 1}, "timeout": 120} for k in range(1, 32)]
+
+
 SPEC = {
     "C16": {
         "pre": pre,
         "extra_props": ("QueueHist", "C16Wrap"),
         "parts": [{"name": "ring", "harness": "ring", "model": "Ring", "gen": gen_ring,
-                   "post": post_ring, "known_must_validate": True}],
+                   "post": post_ring, "known_must_validate": True},
+                  # "for all capacities 2^k": the object must really have the 2^k slots the access-level
+                  # model takes for granted (oracle-only part: allocation size, recorded capacity / mask,
+                  # last and first slot usable)
+                  {"name": "capacity", "harness": "ringcap", "model": None, "gen": gen_cap}],
         "trusted_base": ["64-bit wrap-around of high/low: Model/RingW.lean (the C arithmetic on 64-bit values, any "
                          "starting value) refines Model/Ring.lean (Props/C16Wrap.lean) provided no single call is "
                          "overlapped by 2^63 successful pushes or pops and - for the code as it is - high has not "
